@@ -23,10 +23,67 @@ Definition check_class {R} (make : res R) (run : R -> query -> res answer) (expe
 Definition tris_eqb : list tri -> list tri -> bool := all_eqb tri_eqb.
 Definition table_eqb : list bvec -> list bvec -> bool := all_eqb bvec_eqb.
 
+(* ---- compact case syntax (the case files are dominated by parsing time) ---- *)
+Fixpoint bv (s : string) : bvec :=
+  match s with
+  | EmptyString => []
+  | String c r => (if Ascii.eqb c "1"%char then true else false) :: bv r
+  end.
+Definition tb (rows : list string) : list bvec := map bv rows.
+Definition bt : res answer := Ok (ABool true).
+Definition bf : res answer := Ok (ABool false).
+Definition eI : res answer := Err PyIndexError.
+Definition eV : res answer := Err PyValueError.
+Definition eG : res answer := Err GateDoesntExistError.
+Definition av (s : string) : res answer := Ok (AVec (bv s)).
+Definition an (l : list nat) : res answer := Ok (ANats l).
+Definition ao (s : string) : res answer := Ok (AOptVec (Some (bv s))).
+Definition aN : res answer := Ok (AOptVec None).
+Definition atb (rows : list string) : res answer := Ok (ATable (tb rows)).
+
+(* the queries the harness asks of a function with n inputs and m outputs, in its order
+   (harness/funccorr.py: queries) *)
+Definition queries (n m : nat) : list query :=
+  let vs := all_bool_vectors n in
+  let js := seq 0 (S m) in
+  [QSizes] ++ map QEvaluate vs
+  ++ (if (n =? 0)%nat then [] else [QEvaluate (repeat true (n - 1))])
+  ++ [QEvaluate (repeat false n ++ [true])]
+  ++ flat_map (fun x => map (QEvaluateAt x) js) vs
+  ++ (if (n =? 0)%nat then [] else [QEvaluateAt (repeat true (n - 1)) 0])
+  ++ [QConstant] ++ map QConstantAt js
+  ++ flat_map (fun inv => QMonotone inv :: map (fun j => QMonotoneAt j inv) js) [false; true]
+  ++ [QSymmetric] ++ map QSymmetricAt js
+  ++ flat_map (fun j => map (QDependent j) (seq 0 (n + 2))
+                        ++ flat_map (fun i => [QEqualInput j i; QEqualInputNeg j i]) (seq 0 (n + 1))
+                        ++ [QSignificant j]) js
+  ++ map QFindNegations ([[]] ++ map (fun j => [j]) js
+                         ++ (if (2 <=? m)%nat then [[0; 1]; [1; 0]] else [])
+                         ++ (if (1 <=? m)%nat then [[0; 0]; [0; m]] else []))
+  ++ [QTruthTable].
+
+(* answers in the order of `queries`; a length mismatch fails *)
+Fixpoint check_answers (run : query -> res answer) (qs : list query) (ans : list (res answer)) : bool :=
+  match qs, ans with
+  | [], [] => true
+  | q :: qs', a :: ans' => res_eqb answer_eqb (run q) a && check_answers run qs' ans'
+  | _, _ => false
+  end.
+
+Definition check_class_q {R} (make : res R) (run : R -> query -> res answer) (qs : list query)
+           (expected : res (list (res answer))) : bool :=
+  match make, expected with
+  | Ok r, Ok ans => check_answers (run r) qs ans
+  | Err e, Err e' => err_beq e e'
+  | _, _ => false
+  end.
+
 Inductive fcase : Type :=
 (* one Boolean function given by its table: circuit (dump of the circuit the harness built),
    TruthTable(table), PyFunction(table_callable table, n) *)
 | CFunc (n : nat) (table : list bvec) (c : option circuit) (cq tq pq : res (list qres))
+(* the same with the standard query list `queries n (length table)` left implicit *)
+| CFuncQ (n : nat) (table : list bvec) (c : option circuit) (ca ta pa : res (list (res answer)))
 (* list(input_iterator_with_fixed_sum(n, k, negations=negs)) *)
 | CIter (n k : nat) (negs : option bvec) (r : res (list bvec))
 (* TruthTable(table): (input_size, output_size, _table_t) *)
@@ -65,6 +122,14 @@ Definition check_fcase (x : fcase) : bool :=
     end
     && check_class (tt_make table) tt_query tq
     && check_class (py_make (table_callable table) n None) py_query pq
+  | CFuncQ n table c ca ta pa =>
+    let qs := queries n (length table) in
+    match c with
+    | Some c => check_class_q (Ok c) circuit_query qs ca
+    | None => true
+    end
+    && check_class_q (tt_make table) tt_query qs ta
+    && check_class_q (py_make (table_callable table) n None) py_query qs pa
   | CIter n k negs r => res_eqb table_eqb (fixed_sum n k negs) r
   | CTTMake table r =>
     res_eqb (pair_eqb (pair_eqb Nat.eqb Nat.eqb) table_eqb)
